@@ -289,7 +289,8 @@ func builtinStringReplace(call FunctionCall) Value {
 	}
 
 	if global && searchObject != nil {
-		searchObject.put("lastIndex", intValue(lastIndex), true)
+		// 15.5.4.11: the global search ends with the exec that fails, which resets lastIndex
+		searchObject.put("lastIndex", intValue(0), true)
 	}
 
 	return stringValue(string(result))
